@@ -12,6 +12,13 @@ from .world import EngineWorld
 
 CONTROL = ["Start", "Stop", "Pause", "Unpause", "Hold", "Unhold", "Restart"]
 DTS_JITTER = [0.05, 0.1, 0.1, 0.1, 0.15, 0.3, 0.5]
+# the harness's own copy of the unit families the engine documents (plans must not depend on the tree under test)
+UNIT_FAMILIES = {
+    "time": ["s", "min", "h", "ms"], "length": ["m", "cm"], "area": ["m2", "dm2", "cm2"], "mass": ["kg", "g"],
+    "density": ["kg/L", "g/L"], "temperature": ["degC", "degF", "K"], "amount": ["mol"], "volume": ["L", "mL"],
+    "flow": ["L/h", "L/min", "L/d"], "frequency": ["Hz", "kHz"], "pressure": ["Pa", "bar"],
+    "massflow": ["kg/h", "g/s", "g/min", "g/h"], "conductivity": ["mS/cm"], "percentage": ["%", "vol%", "wt%", "mol%"],
+    "cv": ["CV"], "absorbance": ["AU", "mAU"], "permeability": ["LMH/bar", "L/m2/h/bar"], "flux": ["LMH", "L/m2/h"]}
 
 
 def _oracles_for(world, plan, res):
@@ -34,6 +41,11 @@ class SimE(Simulator):
         "ErrorRecoveryDecorator (recovery profiles)", "ArchiverTag (archive profile)"]
     components_stub = ["hardware (SimHardware register memory + fault plan)", "tick timer (the simulator calls Engine.tick)",
                        "clock (module-level time/datetime -> SimClock)", "uuid (counter)", "file system (archive profile)"]
+
+    def prepare(self, profiles: list[str]) -> None:
+        if "analyze" in profiles:     # heavy imports once in the parent, not once per forked worker
+            import openpectus.lsp.lsp_analysis  # noqa F401
+            import openpectus.lang.exec.analyzer  # noqa F401
 
     # ------------------------------------------------------------------ plan generation
     def gen_plan(self, rng: random.Random, profile: str, tier: str) -> dict:
@@ -348,6 +360,50 @@ class SimE(Simulator):
                 method = method[:k] + [[f"N{k}a{rng.randint(0, 999)}", txt], [f"N{k}b{rng.randint(0, 999)}", "    Mark: w"]] + method[k:]
             else:
                 method = method[:k] + [[f"N{k}c{rng.randint(0, 999)}", txt]] + method[k:]
+        # UOD variant: extra tags / regex-number commands with drawn units, and lines that use them with units of the same
+        # family, of another family, or none (the analyzer and the interpreter must agree on every pair)
+        cfg: dict = {"runlog_every": 50, "wellformed": False}
+        if rng.random() < 0.65:
+            fams = list(UNIT_FAMILIES.values())
+            xt, xc = [], []
+            special = [UNIT_FAMILIES["percentage"], UNIT_FAMILIES["temperature"], UNIT_FAMILIES["cv"], UNIT_FAMILIES["absorbance"]]
+            for i in range(rng.randint(1, 3)):
+                fam = rng.choice(special) if rng.random() < 0.4 else rng.choice(fams)
+                xt.append([f"XT{i}", rng.choice(fam + [None]) if rng.random() < 0.9 else None, rng.choice([0.0, 5.0, 50.0])])
+            for i in range(rng.randint(0, 2)):
+                fam = rng.choice(fams)
+                xc.append([f"XC{i}", rng.sample(fam, rng.randint(1, min(3, len(fam)))) if rng.random() < 0.85 else None])
+            cfg["extra_tags"], cfg["extra_cmds"] = xt, xc
+
+            def unit_near(u):
+                r = rng.random()
+                if u is None:
+                    return rng.choice([None, None, "%", "L", "s"])
+                fam = next(f for f in fams if u in f)
+                if r < 0.6:
+                    return rng.choice(fam)
+                if r < 0.7:
+                    return None
+                return rng.choice(rng.choice(fams))
+            for _ in range(rng.randint(1, 4)):
+                k = rng.randint(0, len(method))
+                r = rng.random()
+                if r < 0.6 or not xc:
+                    name, u, _v = rng.choice(xt)
+                    u2 = unit_near(u)
+                    val = rng.choice(["1", "5", "0.5", "100", "-1"])
+                    rhs = val if u2 is None else f"{val} {u2}"
+                    if rng.random() < 0.75:
+                        op_ = rng.choice([">", "<", ">=", "<=", "=", "!="])
+                        method = method[:k] + [[f"V{k}a{rng.randint(0, 999)}", f"{rng.choice(['Watch', 'Alarm'])}: {name} {op_} {rhs}"],
+                                               [f"V{k}b{rng.randint(0, 999)}", "    Mark: v"]] + method[k:]
+                    else:
+                        method = method[:k] + [[f"V{k}s{rng.randint(0, 999)}", f"Simulate: {name} = {rhs}"]] + method[k:]
+                else:
+                    name, us = rng.choice(xc)
+                    u2 = unit_near(us[0] if us else None)
+                    val = rng.choice(["1", "5", "0.5", "-1", "x"])
+                    method = method[:k] + [[f"V{k}c{rng.randint(0, 999)}", f"{name}: {val}" + ("" if u2 is None else f" {u2}")]] + method[k:]
         seen = set()
         for i, ln in enumerate(method):
             if ln[0] in seen:
@@ -363,7 +419,7 @@ class SimE(Simulator):
         ops.append(["pv", "LVL", 90.0])
         ops.append(["settle", 150])
         ops.append(["analyze_verdict"])
-        return {"cfg": {"runlog_every": 50, "wellformed": False}, "method": method, "ops": ops}
+        return {"cfg": cfg, "method": method, "ops": ops}
 
     # -- profile: local archive on an in-memory file system (C39)
     def _gen_archive(self, rng: random.Random, tier: str) -> dict:
@@ -433,7 +489,8 @@ class SimE(Simulator):
             from .memfs import MemFS
             fs = MemFS()
         world = EngineWorld(res, rec, recovery=cfg.get("recovery", False), archiver=bool(cfg.get("archiver")),
-                            data_log_interval=cfg.get("data_log_interval", 5.0), fs=fs)
+                            data_log_interval=cfg.get("data_log_interval", 5.0), fs=fs,
+                            extra_tags=cfg.get("extra_tags"), extra_cmds=cfg.get("extra_cmds"))
         world.fs = fs
         self.last_world = world          # tools/trace.py
         try:
